@@ -1,4 +1,4 @@
-\* thorough: 3 clients x 1 message, one worker, broadcast replies
+\* reachability: a unicast whose addressee has left is dropped
 CONSTANTS
   c1 = c1
   c2 = c2
@@ -6,18 +6,18 @@ CONSTANTS
   w1 = w1
   w2 = w2
   w3 = w3
-  Clients <- CS3
+  Clients <- CS1
   MaxMsgs = 1
   MaxPings = 0
   Workers <- WS1
   Heartbeat = FALSE
-  Reply <- ReplyBc
+  Reply <- ReplyUni
   ExtScript <- ExtNone
   Mode = "free"
   ShutdownMode = "any"
   Dev = {}
 INIT Init
 NEXT Next
-SYMMETRY Sym
-INVARIANTS TypeOK CurInStreams DispatchInvs InvocationInvs DeliveryInvs QuiescentComplete
+VIEW MCView
+INVARIANTS Reach_UnicastDropped
 CHECK_DEADLOCK FALSE
